@@ -235,3 +235,90 @@ Definition sat_dd (szS : nat -> nat) (K : nat) (rS rR rOut : rule) (s : dd) (evs
   | Some Sr => Some (dd_of_set szS K rOut Sr)
   | None => None
   end.
+
+(** ** executable variants that materialise the current set at every round.
+
+    [bfs], [bfs_front] and [saturate] above build a closure per round, so
+    evaluating the set of round n costs |states|^n.  The variants below store
+    the set of each round as a table (as the library stores a diagram); they are
+    proved to return the same sets (TabP.v) and the same diagrams. *)
+Section Tabulated.
+Variable St : Type.
+Variable states : list St.
+Variable eqb : St -> St -> bool.
+
+Definition tab_set (S : St -> bool) : St -> bool :=
+  let tb := map (fun x => (x, S x)) states in
+  fun y => match find (fun p => eqb (fst p) y) tb with
+           | Some p => snd p
+           | None => S y
+           end.
+
+Fixpoint bfs_t (R : St -> St -> bool) (fuel : nat) (S : St -> bool) : option (St -> bool) :=
+  match fuel with
+  | O => None
+  | Datatypes.S f =>
+      let S' := tab_set (fun y => S y || img St states R S y) in
+      if same_set St states S S' then Some S else bfs_t R f S'
+  end.
+
+Fixpoint bfs_front_t (R : St -> St -> bool) (fuel : nat) (S F : St -> bool) : option (St -> bool) :=
+  match fuel with
+  | O => None
+  | Datatypes.S f =>
+      if empty_set St states F then Some S
+      else
+        let S' := tab_set (fun y => S y || img St states R F y) in
+        let F' := tab_set (fun y => S' y && negb (S y)) in
+        bfs_front_t R f S' F'
+  end.
+
+Fixpoint sat_loop_t (sub : (St -> bool) -> option (St -> bool)) (E : St -> St -> bool)
+         (n : nat) (S : St -> bool) : option (St -> bool) :=
+  match n with
+  | O => None
+  | Datatypes.S n' =>
+      match sub S with
+      | None => None
+      | Some S1 =>
+          let S2 := tab_set (fun y => S1 y || img St states E S1 y) in
+          if same_set St states S S2 then Some S else sat_loop_t sub E n' S2
+      end
+  end.
+
+Fixpoint saturate_t (lv : list (St -> St -> bool)) (fuel : nat) (S : St -> bool)
+  : option (St -> bool) :=
+  match lv with
+  | [] => Some S
+  | E :: lower => sat_loop_t (saturate_t lower fuel) E fuel S
+  end.
+
+End Tabulated.
+
+(** assignments are compared on the levels 1..K *)
+Definition asg_eqb (K : nat) (x y : nat -> nat) : bool :=
+  forallb (fun k => Nat.eqb (x k) (y k)) (seq 1 K).
+
+Section FastDD.
+Variable szS : nat -> nat.
+Variable K : nat.
+Variables rS rR rOut : rule.
+Notation sts := (states_of szS K).
+Notation fuel := (S (length (states_of szS K))).
+
+Definition opt_dd (o : option ((nat -> nat) -> bool)) : option dd :=
+  match o with Some Sr => Some (dd_of_set szS K rOut Sr) | None => None end.
+
+Definition reach_dd_fast (s r : dd) : option dd :=
+  opt_dd (bfs_t _ sts (asg_eqb K) (rel_mem K rR r) fuel (set_mem K rS s)).
+
+Definition rreach_dd_fast (s r : dd) : option dd :=
+  opt_dd (bfs_t _ sts (asg_eqb K) (fun x y => rel_mem K rR r y x) fuel (set_mem K rS s)).
+
+Definition reach_fs_dd_fast (s r : dd) : option dd :=
+  opt_dd (bfs_front_t _ sts (asg_eqb K) (rel_mem K rR r) fuel (set_mem K rS s) (set_mem K rS s)).
+
+Definition sat_dd_fast (s : dd) (evs : list dd) : option dd :=
+  opt_dd (saturate_t _ sts (asg_eqb K) (map (rel_mem K rR) evs) fuel (set_mem K rS s)).
+
+End FastDD.
